@@ -53,6 +53,13 @@ var KindNames = []string{"nonkey", "key", "sps", "pps", "vps", "stap-ps", "fu-ke
 func MkPkt(uid uint32, k Kind, hevc bool, extra int) *rtp.Packet {
 	var ch byte = rtp.ChannelVideo
 	var pl []byte
+	// bits 8.. of extra select the H.265 key-frame NAL type of this packet (0 = IDR_W_RADL, else
+	// BLA_W_LP + n - 1: every IRAP type 16..21, CRA included); the low byte is the body length
+	keyT := byte(19)
+	if extra>>8 != 0 {
+		keyT = 16 + byte((extra>>8)-1)%6
+	}
+	extra &= 0xff
 	u := make([]byte, 4)
 	binary.BigEndian.PutUint32(u, uid)
 	fill := make([]byte, extra)
@@ -100,7 +107,7 @@ func MkPkt(uid uint32, k Kind, hevc bool, extra int) *rtp.Packet {
 	case KNonKey:
 		pl = nal(1, 1)
 	case KKey:
-		pl = nal(5, 19)
+		pl = nal(5, keyT)
 	case KSps:
 		pl = nal(7, 33)
 	case KPps:
@@ -110,13 +117,13 @@ func MkPkt(uid uint32, k Kind, hevc bool, extra int) *rtp.Packet {
 	case KStapPS:
 		pl = agg(nal(7, 33), nal(8, 34))
 	case KFuKeyS:
-		pl = fu(5, 19, true)
+		pl = fu(5, keyT, true)
 	case KFuKeyM:
-		pl = fu(5, 19, false)
+		pl = fu(5, keyT, false)
 	case KFuNonS:
 		pl = fu(1, 1, true)
 	case KStapKey:
-		pl = agg(nal(6, 39), nal(5, 19))
+		pl = agg(nal(6, 39), nal(5, keyT))
 	case KAudio:
 		ch = rtp.ChannelAudio
 		n := len(body)
